@@ -375,6 +375,13 @@ theorem clean_step {T : List Nat} (inv : RepS T s p F) (fuel : Nat) (hf : Fits f
     rw [hop, hput]
     exact Sim.mk (inv'.congrT (fun a => by simp))
 
+theorem setValue_step {T : List Nat} (inv : RepS T s p F) (fuel : Nat) (hf : Fits fuel p) (src : Option Ref) (target : Ref)
+    (hv : target.isVal = true) : Sim T (setValueH fuel s src target) (setValueP p src target) := by
+  unfold setValueH setValueP
+  cases src with
+  | none => exact clean_step inv fuel hf _ hv
+  | some sr => exact copyOnto_step inv fuel hf sr _
+
 theorem step_lset (inv : RepS [] s p F) (fuel : Nat) (hf : Fits fuel p) (r : Ref) (i : Nat) (src : Option Ref) :
     Sim [] (stepH? fuel s (.lset r i src)) (stepP? p (.lset r i src)) := by
   simp only [stepH?, stepP?]
@@ -392,21 +399,10 @@ theorem step_lset (inv : RepS [] s p F) (fuel : Nat) (hf : Fits fuel p) (r : Ref
         simp only [hsz]
         by_cases hi : i < vs.length
         · simp only [hi, if_true]
-          cases src with
-          | none => exact clean_step inv fuel hf _ (isVal_member hv _)
-          | some sr => exact copyOnto_step inv fuel hf sr _
+          exact setValue_step inv fuel hf src _ (isVal_member hv _)
         · simp only [hi]; exact Sim.none
       · have hn : ∀ vs, c ≠ .lst vs := fun vs e => hl ⟨vs, e⟩
         have hn' := Rep_not_lst hrept hn
-        have e1 : (match hvt with
-            | .lst elems size => (if i < lstSize elems size then
-                (match src with
-                  | none => (match resolveRef s (r.member (.idx i)) with
-                      | some t => (installAt fuel s.h t .unk).map (fun h' => ({ s with h := h' } : HState))
-                      | none => none)
-                  | some sr => copyOntoH fuel s sr (r.member (.idx i))) else none)
-            | _ => none) = none := by
-          cases hvt <;> first | rfl | exact absurd rfl (hn' _ _)
         cases c <;> first | exact absurd rfl (hn _) | (cases hvt <;> first | exact absurd rfl (hn' _ _) | exact Sim.none)
   · simp only [hv]; exact Sim.none
 
